@@ -20,6 +20,7 @@ def tree_broken(o, i):
     return False
 
 CFG = dict(
+    issue_prefixes=['sched:'],
     streams=[('sched', 1500, 30000, 'http2test'), ('prio', 1500, 30000, 'http2test')],
     corpus_exec={'d7_idle_open_evicted.ops': 'http2test'},
     self_evident=tree_broken,
